@@ -131,6 +131,140 @@ pub fn generate(prop: &str, tier: &str, r: &mut Rng, out: &mut Vec<String>) -> G
             }
             GenInfo { rule: "12 request shapes (10 builders, 2 raw constructors) x seeded random arguments, builder calls and 0-5 further additions (incl. job-uri, job-id, printer-uri, charset in any order), each shape built as several fresh instances (fresh randomly keyed hash maps) and encoded; the bytes up to the end of the RFC 8011 header attributes are compared and the order oracle reads the names off the wire; non-trivial counts distinct shapes".into(), exhaustive: false }
         }
+        "C05" => {
+            use crate::gen3::*;
+            use crate::sources::Ev;
+            let maxn = if thorough { 21 } else { 16 };
+            for m in short_messages() {
+                if m.len() <= maxn {
+                    all_compositions(&m, |evs| {
+                        out.push(line("async", &evs));
+                    });
+                }
+                for k in 1..=m.len() {
+                    let evs = uniform(&m, k);
+                    let mut rr = r.fork();
+                    out.push(line("async-deferred", &with_pending(&mut rr, evs.clone())));
+                    out.push(line("async", &with_pending(&mut rr, evs)));
+                }
+            }
+            // compositions with not-ready results of the 16-byte message
+            let m16 = short_messages()[2].clone();
+            let mut cnt = 0;
+            all_compositions(&m16, |evs| {
+                cnt += 1;
+                if cnt % (if thorough { 1 } else { 8 }) == 0 {
+                    let mut rr = r.fork();
+                    out.push(line(if cnt % 2 == 0 { "async" } else { "async-deferred" }, &with_pending(&mut rr, evs)));
+                }
+            });
+            let n = if thorough { 60_000 } else { 3_000 };
+            let lim = crate::wiregen::WLimits { max_depth: 3, malformed_per_mille: 30, boundary: false };
+            for i in 0..n {
+                let mut rr = r.fork();
+                let bytes: Vec<u8> = match i % 3 {
+                    0 => {
+                        let (mut b, p) = wellformed(&mut rr);
+                        b.extend_from_slice(&p);
+                        b
+                    }
+                    1 => {
+                        let mut b = crate::wiregen::ser(&crate::wiregen::gen_wmsg(&mut rr, &lim));
+                        b.extend_from_slice(&gen_payload(&mut rr));
+                        b
+                    }
+                    _ => {
+                        let (b, _) = wellformed(&mut rr);
+                        crate::malformed::mutate(&mut rr, &b)
+                    }
+                };
+                let comp = random_composition(&mut rr, &bytes);
+                let evs = with_pending(&mut rr, comp);
+                let mut evs2 = evs.clone();
+                if i % 10 == 9 && !evs2.is_empty() {
+                    let at = rr.below(evs2.len() as u64) as usize;
+                    evs2.insert(at, Ev::Fail(crate::text::io_kind_of(*rr.pick(FAULT_KINDS)).unwrap()));
+                }
+                out.push(line(if i % 2 == 0 { "async" } else { "async-deferred" }, &evs2));
+            }
+            GenInfo { rule: "every composition into chunks of short well-formed and malformed messages (all 2^(n-1) for n <= 16 quick / 21 thorough), uniform chunk sizes 1..n with 0-2 not-ready results before each chunk (immediate and deferred wake-up), and seeded random compositions with not-ready results of generated well-formed messages, wire trees and mutated messages (one in ten with an injected I/O failure); each async outcome is compared with the blocking parser's outcome on the same data/error events and with the model; non-trivial = distinct scripts".into(), exhaustive: false }
+        }
+        "C06" => {
+            use crate::gen3::*;
+            let maxn = if thorough { 21 } else { 16 };
+            for m in short_messages().into_iter().filter(|m| crate::exec::parse_flat(m).is_ok()) {
+                if m.len() <= maxn {
+                    all_compositions(&m, |evs| {
+                        out.push(line("sync", &evs));
+                    });
+                }
+                for k in 1..=m.len() {
+                    let mut rr = r.fork();
+                    out.push(line("sync", &with_interrupts(&mut rr, uniform(&m, k))));
+                    out.push(line("async", &uniform(&m, k)));
+                }
+            }
+            let n = if thorough { 20_000 } else { 200 };
+            for _ in 0..n {
+                let mut rr = r.fork();
+                let (mut b, p) = wellformed(&mut rr);
+                b.extend_from_slice(&p);
+                out.push(line("sync", &uniform(&b, 1)));
+                out.push(line("async", &uniform(&b, 1)));
+                for _ in 0..6 {
+                    let evs = random_composition(&mut rr, &b);
+                    out.push(line("sync", &with_interrupts(&mut rr, evs.clone())));
+                    out.push(line("async", &with_pending(&mut rr, evs)));
+                }
+                // cut exactly at the end of the attributes: the payload must arrive untouched
+                let cut = b.len() - p.len();
+                out.push(line("sync", &[crate::sources::Ev::Data(b[..cut].to_vec()), crate::sources::Ev::Data(b[cut..].to_vec())]));
+            }
+            if thorough {
+                for _ in 0..20 {
+                    let mut rr = r.fork();
+                    let (mut b, _) = wellformed(&mut rr);
+                    let n = rr.range(1 << 20, 3 << 20) as usize;
+                    b.extend_from_slice(&rr.bytes(n));
+                    out.push(line("sync", &random_composition(&mut rr, &b)));
+                }
+            }
+            GenInfo { rule: "well-formed messages x payloads (empty, one byte, bytes that look like IPP tags, random up to 2000 bytes; MiBs in the thorough tier) x fragmentations (every composition of the short messages, one byte at a time, uniform, seeded random) with Interrupted results before any read for the blocking reader and not-ready results for the async reader; the result must equal the parse of the unfragmented bytes and the remaining reader must yield exactly the payload; non-trivial = distinct scripts".into(), exhaustive: false }
+        }
+        "C07" => {
+            use crate::gen3::*;
+            use crate::sources::Ev;
+            let n = if thorough { 5_000 } else { 200 };
+            let mut msgs: Vec<(Vec<u8>, Vec<u8>)> = short_messages().into_iter().filter(|m| crate::exec::parse_flat(m).is_ok()).map(|m| (m, vec![])).collect();
+            for _ in 0..n {
+                let mut rr = r.fork();
+                msgs.push(wellformed(&mut rr));
+            }
+            for (b, p) in msgs {
+                let ha = b.len() - if p.is_empty() && b.ends_with(&[0xaa, 0xbb]) { 2 } else { 0 };
+                let ha = ha.min(600);
+                for k in 0..ha.min(b.len()) {
+                    // cut: end of stream after k bytes
+                    out.push(line("sync", &[Ev::Data(b[..k].to_vec())]));
+                    out.push(line("async", &[Ev::Data(b[..k].to_vec())]));
+                }
+                let mut rr = r.fork();
+                for k in 0..ha.min(b.len()) {
+                    // single fault at offset k, every kind (all 8 for short messages, one random kind per offset for long ones)
+                    let kinds: Vec<&str> = if b.len() <= 64 { FAULT_KINDS.iter().cloned().chain(["would-block"]).collect() } else { vec![*rr.pick(FAULT_KINDS)] };
+                    for kind in kinds {
+                        let mut all = b.clone();
+                        all.extend_from_slice(&p);
+                        let evs = vec![Ev::Data(all[..k].to_vec()), Ev::Fail(crate::text::io_kind_of(kind).unwrap()), Ev::Data(all[k..].to_vec())];
+                        out.push(line("sync", &evs));
+                        if kind != "would-block" {
+                            out.push(line("async", &evs));
+                        }
+                    }
+                }
+            }
+            GenInfo { rule: "for each well-formed message (short fixed ones and seeded random ones): every cut point before the end-of-attributes tag (end of stream after k bytes) and a single injected I/O failure at every byte offset before that tag (all kinds for short messages, a random kind per offset for long ones; WouldBlock for the blocking reader), through both parsers; the outcome must be an error carrying that kind; non-trivial = distinct scripts".into(), exhaustive: false }
+        }
         "C04" => {
             let n = if thorough { 200_000 } else { 3_000 };
             let lim = crate::wiregen::WLimits { max_depth: if thorough { 6 } else { 4 }, malformed_per_mille: 8, boundary: true };
